@@ -402,6 +402,106 @@ def r17_6(prog: Program, chk: Check) -> None:
             chk.ob("R17.6", f"format_strings::format-model::{k}::and-more", False, site, f"{rest} further disagreeing calls in this class (of {c['n']})")
 
 
+# ------------------------------------------------------------------- R17.7
+# messages of the deliberately stricter lint rules of %-formatting (each is documented at the place that emits it)
+PERCENT_STRICTER = (
+    "use of % on string with no conversion specifiers",  # comment in PercentFormatString.accept: "will produce errors for some things that aren't errors at runtime"
+    "cannot combine specifiers that require a mapping with those that do not",  # PercentFormatString.lint
+    "using % combined with optional specifiers does not make sense",  # ConversionSpecifier.lint
+)
+
+
+def _percent_chunk(args):
+    part, nparts, stride = args
+    from ..model import AnchorError as _AE
+    from ..model import Program as _P
+    from . import percent_model as pmod
+
+    model = pmod.PercentModel(_P())
+    classes: Dict[str, Dict[str, object]] = {}
+    unsupported = []
+    n = 0
+
+    def note(key: str, bad: bool, d) -> None:
+        c = classes.setdefault(key, {"n": 0, "bad": 0, "witness": []})
+        c["n"] += 1  # type: ignore[operator]
+        if bad:
+            c["bad"] += 1  # type: ignore[operator]
+            w = c["witness"]
+            w.append(d)  # type: ignore[union-attr]
+            w.sort(key=lambda x: (len(x["expression"]), repr(x)))  # type: ignore[union-attr]
+            del w[4:]  # type: ignore[arg-type]
+
+    idx = 0
+    for t0 in pmod.templates():
+        for t in pmod.both_kinds(t0):
+            idx += 1
+            if idx % nparts != part:
+                continue
+            kind = ("bytes" if isinstance(t, bytes) else "str") + ("-mapping" if (b"%(" in t if isinstance(t, bytes) else "%(" in t) else "")
+            for j, a in enumerate(pmod.ARGS):
+                if stride > 1 and (idx + j) % stride:
+                    continue
+                n += 1
+                d = {"expression": f"{t!r} % {a!r}"}
+                ref = pmod.cpython(t, a)
+                try:
+                    msgs = model.diagnostics(t, a)
+                except _AE as e:
+                    unsupported.append({**d, "why": str(e)[:300]})
+                    continue
+                if isinstance(msgs, tuple):
+                    note(f"{kind}::no-crash", True, {**d, "error": msgs[1]})
+                    continue
+                note(f"{kind}::no-crash", False, d)
+                if ref != "ok":
+                    note(f"{kind}::a format error is reported whenever CPython raises", not msgs, {**d, "cpython": ref})
+                else:
+                    extra = [m for m in msgs if not any(m.startswith(sx) for sx in PERCENT_STRICTER)]
+                    note(f"{kind}::nothing is reported when CPython formats (outside the documented stricter rules)", bool(extra), {**d, "messages": extra})
+    return n, classes, unsupported
+
+
+def r17_7(prog: Program, chk: Check) -> None:
+    import multiprocessing as mp
+    import os as _os
+
+    chk.rule(
+        "R17.7",
+        "%-formatting as a finite model against CPython: PercentFormatString.from_pattern / from_bytes_pattern (the regular expression compiled from its folded literal), "
+        "ConversionSpecifier.from_match / lint / accept_no_mvv, PercentFormatString.lint / accept / accept_mapping_args_no_mvv / accept_tuple_args_no_mvv / get_serial_specifiers "
+        "and StarConversionSpecifier.accept are interpreted from their AST on ~270 templates (every single specifier and every pair of 15 specifiers - flags, width, precision, *, "
+        "mapping keys, %%, integer-only and numeric conversions, %c, %b - str and bytes, plus malformed ones) x 23 literal right operands (scalars, tuples, dicts with str / bytes / "
+        "int keys); CPython evaluates the same expression: a format error is reported whenever it raises, and nothing outside three documented stricter rules when it formats",
+        floor=8,
+    )
+    selftest = bool(_os.environ.get("VERIF_SELFTEST"))
+    procs = 2 if selftest else min(16, _os.cpu_count() or 1)
+    stride = 6 if selftest else 1
+    with mp.get_context("fork").Pool(procs) as pl:
+        results = pl.map(_percent_chunk, [(i, procs * 2, stride) for i in range(procs * 2)])
+    total = 0
+    merged: Dict[str, Dict[str, object]] = {}
+    unsupported = []
+    for n, classes, uns in results:
+        total += n
+        unsupported += uns
+        for k, c in classes.items():
+            m = merged.setdefault(k, {"n": 0, "bad": 0, "witness": []})
+            m["n"] += c["n"]  # type: ignore[operator]
+            m["bad"] += c["bad"]  # type: ignore[operator]
+            m["witness"] = sorted(list(m["witness"]) + list(c["witness"]), key=lambda x: (len(x["expression"]), repr(x)))[:4]  # type: ignore[arg-type]
+    chk.model_evaluations += total
+    chk.analysed["percent_model"] = {"expressions": total, "not_modelled": len(unsupported)}
+    site = prog.site("format_strings", prog.func("format_strings", "PercentFormatString.accept"))
+    for k, c in sorted(merged.items()):
+        wit = c["witness"]
+        chk.ob("R17.7", f"format_strings::percent-model::{k}", int(c["bad"]) == 0, site,  # type: ignore[arg-type]
+               f"{c['n']} expressions, {c['bad']} failing" + (f"; smallest: {wit[0]}" if wit else ""), witness=wit)  # type: ignore[index]
+    if unsupported:
+        raise AnchorError(f"{len(unsupported)} expressions cannot be modelled; first: {unsupported[0]}")
+
+
 def run(prog: Program, chk: Check) -> None:
     guard(chk, r17_1, prog, chk)
     guard(chk, r17_2, prog, chk)
@@ -409,3 +509,4 @@ def run(prog: Program, chk: Check) -> None:
     guard(chk, r17_4, prog, chk)
     guard(chk, r17_5, prog, chk)
     guard(chk, r17_6, prog, chk)
+    guard(chk, r17_7, prog, chk)
